@@ -92,12 +92,23 @@ async def exchange(handler, request=b"gemini://localhost/x\r\n", cut=None, clien
     sent_request = False
     hs_error = None
 
+    escaped = []
+
+    def deliver(chunk):
+        if escaped:
+            return
+        try:
+            server.data_received(chunk)
+        except Exception as e:  # noqa: BLE001  - asyncio logs it and aborts the connection
+            escaped.append(repr(e))
+            tcp.closed = True
+
     def to_server(data):
         if cut:
             for i in range(0, len(data), cut):
-                server.data_received(data[i:i + cut])
+                deliver(data[i:i + cut])
         else:
-            server.data_received(data)
+            deliver(data)
     for _round in range(4000):
         progressed = False
         # client -> server
@@ -105,7 +116,8 @@ async def exchange(handler, request=b"gemini://localhost/x\r\n", cut=None, clien
             if not sent_request:
                 try:
                     cli.do_handshake()
-                    cli.send(request)
+                    for part in (request if isinstance(request, (list, tuple)) else [request]):
+                        cli.send(part)          # one TLS record per part, all leaving with the client's last handshake flight
                     sent_request = True
                 except SSL.WantReadError:
                     pass
@@ -206,6 +218,19 @@ def bank_c07():
             base = key
         if key != base or len(calls) != 1:
             return dict(confirmed=True, input=dict(ciphertext_cut=cut), observed=dict(received=repr(r["plaintext"][:80]), handler_calls=calls, baseline=repr(base)[:200]),
+                        clause="outcome independent of how the TLS byte stream is cut; exactly one handler invocation")
+    # the request split over several TLS records that arrive in the SAME read as the end of the handshake
+    for parts in ([b"gemini://localhost/seg?x=1", b"\r\n", b"trailing garbage"], [b"gemini://localhost/", b"seg?x=1\r\n", b"trailing ", b"garbage"]):
+        calls = []
+
+        def handler2(req):
+            calls.append(req.path)
+            return GeminiResponse(status=20, meta="text/plain", body="segmentation test\n")
+        r = asyncio.run(exchange(handler2, request=parts))
+        key = (r["plaintext"], tuple(calls))
+        if key != base:
+            return dict(confirmed=True, input=dict(request_records=[repr(p_) for p_ in parts], delivery="all records in the read that completes the handshake"),
+                        observed=dict(received=repr(r["plaintext"][:80]), handler_calls=calls, baseline=repr(base)[:200]),
                         clause="outcome independent of how the TLS byte stream is cut; exactly one handler invocation")
     return dict(confirmed=False, reason="same outcome for every cut of the ciphertext")
 
